@@ -170,6 +170,15 @@ func checkC08(w *World, r *Report) {
 		r.Check(allDep, "C08.vested", "every alternative of the original vesting is computed from amount and Free", w.Pos(ncvaCall.Instr.Pos()), fmt.Sprintf("%d alternative(s), each with both parameters on its backward slice", len(alts)), "one alternative of the original vesting ("+bad+") is not computed from the amount and the free fraction: under some condition the account vests another amount than trunc(amount*(1-free))")
 	}
 	r.Check(ncvaCall.Args()[1] == toP, "C08.fresh", "newVestingAccount: account created for the recipient address", w.Pos(ncvaCall.Instr.Pos()), "same address value", "the account is created for another address than the transfer recipient")
+	// the account is written only after everything that can still refuse the send was asked: the bank's send-enabled and
+	// blocked-address checks of the operation come before the creation (a refused send must not leave an empty vesting
+	// account behind that occupies the address)
+	for _, e := range w.effectsBelow(nva, func(s *Site) bool {
+		return cg.Atom(s) == BankRead && (s.Method == "IsSendEnabledCoins" || s.Method == "IsSendEnabledCoin" || s.Method == "BlockedAddr")
+	}, 2) {
+		top := e.Top()
+		r.Check(instrDominates(top, ncvaCall.Instr), "C08.fresh", "newVestingAccount: "+e.Site.Method+" is asked before the account is created", w.Pos(top.Pos()), "the check dominates the creation", "the recipient account is created before "+e.Site.Method+" can still refuse the send: a refused send leaves an empty vesting account at the address")
+	}
 	if xfer != nil {
 		var rec ssa.Value
 		for _, a := range xfer.Args() {
